@@ -120,6 +120,24 @@ def gen():
                         % (vt(k1, "A"), vt(k2, c2), vt(k1, "A"), vt(k2, c2), use_of(k1, "x"), use_of(k2, "y")))
             add("f3_%s%s" % (k1, k2), "F3 two entry views", body("A"), pair_expect(k1, k2), "entry views %s and %s of A" % (k1, k2))
             add("f3_%s%s_twin" % (k1, k2), "F3 twin", body("B"), "accept", "second entry view on B")
+    # ---------------- F9: sub-views requested from an Entries entry must be covered by the declared entry views
+    for d in ks:
+        for r_ in ks:
+            def body(comp_decl, comp_req):
+                return ("pub fn f(world: &mut World<Reg>, id: entity::Identifier) { let mut res = world.query(Query::<Views!(), filter::None, Views!(), Views!(%s)>::new()); "
+                        "if let Some(mut e) = res.entries.entry(id) { if let Some(result!(y)) = e.query(Query::<Views!(%s)>::new()) { %s } } }"
+                        % (vt(d, comp_decl), vt(r_, comp_req), use_of(r_, "y")))
+            escalates = MUT[r_] and not MUT[d]
+            add("f9_sub_%s_from_%s" % (r_, d), "F9 sub-view vs declared entry view", body("A", "A"), "reject" if escalates else "dontcare", "sub-view %s of A requested from declared entry view %s of A" % (r_, d))
+            add("f9_undeclared_%s_from_%s" % (r_, d), "F9 sub-view of an undeclared component", body("A", "B"), "reject", "sub-view %s of B requested although only A is declared" % r_)
+        def body2(k1, k2):
+            return ("pub fn f(world: &mut World<Reg>, id: entity::Identifier) { let mut res = world.query(Query::<Views!(), filter::None, Views!(), Views!(%s)>::new()); "
+                    "if let Some(mut e) = res.entries.entry(id) { if let Some(result!(x, y)) = e.query(Query::<Views!(%s, %s)>::new()) { %s %s } } }"
+                    % (vt(d, "A"), vt(k1, "A"), vt(k2, "A"), use_of(k1, "x"), use_of(k2, "y")))
+        for k1 in ks:
+            for k2 in ks:
+                add("f9_twice_%s%s_from_%s" % (k1, k2, d), "F9 one declared component requested twice", body2(k1, k2), "reject" if (MUT[k1] or MUT[k2]) else "dontcare", "sub-views %s and %s of A from one declared entry view %s" % (k1, k2, d))
+    add("f9_twin", "F9 twin", "pub fn f(world: &mut World<Reg>, id: entity::Identifier) { let mut res = world.query(Query::<Views!(), filter::None, Views!(), Views!(&mut A, &B)>::new()); if let Some(mut e) = res.entries.entry(id) { if let Some(result!(x, y)) = e.query(Query::<Views!(&B, &mut A)>::new()) { x.0; y.0 = 1; } } }", "accept", "both declared components requested once, in another order")
     # ---------------- F4: two resource views of one resource
     for k1 in "rw":
         for k2 in "rw":
@@ -171,6 +189,24 @@ def gen():
                 "reject", "results of two queries alive together")
     add("f5e_twin", "F5e twin", "pub fn f(world: &mut World<Reg>) { let x = world.query(Query::<Views!(&A)>::new()).iter.count(); let y = world.query(Query::<Views!(&mut A)>::new()).iter.count(); touch(x + y); }", "accept", "sequential queries")
     add("f5d_twin", "F5d twin", "pub fn f(world: &mut World<Reg>, id: entity::Identifier) { { let mut e1 = world.entry(id).unwrap(); e1.add(A(1)); } let mut e2 = world.entry(id).unwrap(); e2.remove::<A, _>(); }", "accept", "sequential entries")
+    # ---------------- F5f: borrows handed out by the world end before the world is used again
+    life = {
+        "insert_while_iterating": "pub fn f(world: &mut World<Reg>) { let it = world.query(Query::<Views!(&A)>::new()).iter; world.insert(entity!(A(1))); for result!(a) in it { touch(&a.0); } }",
+        "remove_while_iterating": "pub fn f(world: &mut World<Reg>, id: entity::Identifier) { let it = world.query(Query::<Views!(&mut A)>::new()).iter; world.remove(id); for result!(a) in it { a.0 = 1; } }",
+        "clear_while_entries_alive": "pub fn f(world: &mut World<Reg>, id: entity::Identifier) { let mut res = world.query(Query::<Views!(), filter::None, Views!(), Views!(&mut A)>::new()); world.clear(); touch(res.entries.entry(id).is_some()); }",
+        "entry_add_while_iterating": "pub fn f(world: &mut World<Reg>, id: entity::Identifier) { let it = world.query(Query::<Views!(&A)>::new()).iter; world.entry(id).unwrap().add(B(1)); for result!(a) in it { touch(&a.0); } }",
+        "component_ref_outlives_removal": "pub fn f(world: &mut World<Reg>, id: entity::Identifier) { let r: &A = { let mut e = world.entry(id).unwrap(); let result!(a) = e.query(Query::<Views!(&A)>::new()).unwrap(); a }; world.remove(id); touch(&r.0); }",
+        "component_ref_outlives_world": "pub fn f() -> &'static A { let mut world = World::<Reg>::new(); let id = world.insert(entity!(A(1))); let mut e = world.entry(id).unwrap(); let result!(a) = e.query(Query::<Views!(&A)>::new()).unwrap(); a }",
+        "get_while_get_mut": "pub fn f(world: &mut World<Reg, Resources!(R1)>) { let r = world.get::<R1, _>(); world.get_mut::<R1, _>().0 = 1; touch(&r.0); }",
+        "resource_view_while_get": "pub fn f(world: &mut World<Reg, Resources!(R1)>) { let result!(x) = world.view_resources::<Views!(&mut R1), _>(); let y = world.get::<R1, _>(); x.0 = 1; touch(&y.0); }",
+        "query_resource_view_while_get_mut": "pub fn f(world: &mut World<Reg, Resources!(R1)>) { let res = world.query(Query::<Views!(), filter::None, Views!(&R1)>::new()); let result!(x) = res.resources; world.get_mut::<R1, _>().0 = 1; touch(&x.0); }",
+        "world_entry_while_query": "pub fn f(world: &mut World<Reg>, id: entity::Identifier) { let mut e = world.entry(id).unwrap(); let n = world.query(Query::<Views!(&A)>::new()).iter.count(); e.add(A(1)); touch(n); }",
+        "schedule_while_iterating": "pub struct S0; impl System for S0 { type Views<'a> = Views!(&'a mut A); type Filter = filter::None; type ResourceViews<'a> = Views!(); type EntryViews<'a> = Views!();\n  fn run<'a, R, Q, I, E>(&mut self, qr: Result<'a, R, Q, I, Self::ResourceViews<'a>, Self::EntryViews<'a>, E>) where R: registry::ContainsViews<'a, Self::EntryViews<'a>, E>, I: Iterator<Item = Self::Views<'a>> { } }\npub fn f(world: &mut World<Reg>) { let it = world.query(Query::<Views!(&A)>::new()).iter; let mut s = schedule!(task::System(S0)); world.run_schedule(&mut s); for result!(a) in it { touch(&a.0); } }",
+        "par_iter_item_escapes": "pub fn f(world: &mut World<Reg>) { let v: Vec<&mut A> = world.par_query(Query::<Views!(&mut A)>::new()).iter.map(|result!(a)| a).collect(); world.clear(); for a in v { a.0 = 1; } }",
+    }
+    for name, body in life.items():
+        add("f5f_" + name, "F5f borrow outlives the next use of the world", body, "reject", name.replace("_", " "))
+    add("f5f_twin", "F5f twin", "pub fn f(world: &mut World<Reg, Resources!(R1)>, id: entity::Identifier) { { let it = world.query(Query::<Views!(&A)>::new()).iter; for result!(a) in it { touch(&a.0); } } world.insert(entity!(A(1))); world.remove(id); let r = world.get::<R1, _>().0; world.get_mut::<R1, _>().0 = r; let v: Vec<&mut A> = world.par_query(Query::<Views!(&mut A)>::new()).iter.map(|result!(a)| a).collect(); for a in v { a.0 = 1; } world.clear(); }", "accept", "the same uses, each borrow ended first")
     # ---------------- F6: component / resource outside the registry
     f6 = {
         "insert": ("world.insert(entity!(A(1), {c}(2)));", "B"),
@@ -316,7 +352,7 @@ def gen():
     add("c18_batch_columns_twin", "C18 batch invariant twin", "pub fn f(b: %s, world: &mut World<Reg>) { touch(world.extend(b)); }" % BT, "accept", "a batch passed on unchanged")
     add("c18_identifier_forged", "C18 identifier fields", "pub fn f() -> entity::Identifier { entity::Identifier { index: 0, generation: 0 } }", "dontcare", "an identifier built with a struct literal")
 
-OK_CODES = {"E0277", "E0499", "E0502", "E0505", "E0597", "E0599", "E0271", "E0308", "E0282", "E0283", "E0284", "E0133", "E0716", "E0506", "E0503", "E0382", "E0521", "E0373", "E0275", "E0616", "E0451", "E0560", "E0063", "E0639"}
+OK_CODES = {"E0277", "E0499", "E0502", "E0505", "E0597", "E0599", "E0271", "E0308", "E0282", "E0283", "E0284", "E0133", "E0716", "E0506", "E0503", "E0382", "E0521", "E0373", "E0275", "E0616", "E0451", "E0560", "E0063", "E0639", "E0515"}
 
 
 def artifacts():
